@@ -6,7 +6,7 @@ Guide and the libaldor sources), proved well defined on the whole generated fami
 /repo's CURRENT sources must print the oracle's text and end with the oracle's status class,
 both through `-ginterp` and through the C back end + gcc + runtime library.
 """
-import collections, concurrent.futures, itertools, json, os, shutil, time
+import collections, concurrent.futures, itertools, json, os, re, shutil, time
 from vlib import common as C
 from props import mini
 
@@ -40,6 +40,9 @@ CORPUS_KEYS = {
     "if-inside-list-bracket": "C01 corpus if-inside-list-bracket",
     "list-import-lost-in-toplevel-if": "C01 corpus list-import-lost-in-toplevel-if",
     "iterate-out-of-try": "C01 corpus iterate-out-of-try",
+    "exit-condition-shortcircuit-skipped-first-use": "C01 corpus exit-condition-shortcircuit-skipped-first-use",
+    "and-of-if-with-shortcircuit-branch": "C01 corpus and-of-if-with-shortcircuit-branch",
+    "catch-in-callee-then-throw-to-caller": "C01 corpus catch-in-callee-then-throw-to-caller",
 }
 
 _uniq = itertools.count()
@@ -56,6 +59,27 @@ def _routes(aldor, p, d):
         res.append((r, ok))
     shutil.rmtree(d, ignore_errors=True)
     return res
+
+
+def _kind(r, expect_status):
+    """Coarse failure signature of one route's result."""
+    txt = r["out"] + r.get("err", "") + r.get("compile_out", "")
+    if r["rc"] == 124:
+        return "timeout"
+    if "segmentation violation" in txt or r["rc"] in (-11, 139):
+        return "crash"
+    m = re.search(r"\((Fatal Error|Error)\) ([^\n]*)", txt)
+    if m and (r["status"] == "compile-error" or "#1 (" in r["out"]):
+        msg = re.sub(r"`[^']*'", "`..'", m.group(2))
+        msg = re.sub(r"\d+", "N", msg)
+        return "rejected: " + msg[:70]
+    if r["status"] != expect_status:
+        return "status %s instead of %s" % (r["status"], expect_status)
+    return "wrong output"
+
+
+def _signature(bad, expect_status=None):
+    return "; ".join(sorted("%s: %s" % (r["route"], _kind(r, expect_status or "?")) for r in bad))
 
 
 def _replay_obj(p, bad, how):
@@ -150,36 +174,50 @@ def run(rep, tier):
                 mismatches.append((p, bad))
     t_run = time.time() - t0 - t_build - t_gen
 
-    # ---- 3. shrink and report disagreements (at most a few per run; each is a violation)
+    # ---- 3. group the disagreements into families (same failure signature on the same routes),
+    #         shrink ONE representative per family, report one violation per family
+    fams = collections.OrderedDict()
+    for p, bad in mismatches:
+        fams.setdefault(_signature(bad, p["expect_status"]), []).append((p, bad))
     shrunk = 0
-    for p, bad in mismatches[:3]:
+    for sig, members in fams.items():
+        members.sort(key=lambda pb: pb[0]["nodes"])
+        p, bad = members[0]
         routes = [r["route"] for r in bad]
+        seeds = [(q["seed"], q["size"]) for q, _ in members]
+        if shrunk >= (3 if tier == "quick" else 8):
+            rep.violation("generated programs (%d, e.g. seed %d size %d, not shrunk): %s; family %s"
+                          % (len(members), p["seed"], p["size"], "+".join(routes), sig),
+                          dict(_replay_obj(p, bad, "./check C01 --replay <this file>"), family=sig, members=seeds))
+            continue
 
-        def still_fails(q, routes=routes):
+        def still_fails(q, routes=routes, sig=sig, st=p["expect_status"]):
+            # the candidate must fail in the SAME way (same signature), otherwise shrinking
+            # drifts from one defect to another
+            if q["expect_status"] != st:
+                return False
             d = "%s/shr-%d" % (base, next(_uniq))
             try:
+                b = []
                 for rt in routes:
                     r = (mini.run_interp if rt == "interp" else mini.run_c)(aldor, q["src"], d)
                     if r["out"] != q["expect_out"] or r["status"] != q["expect_status"]:
-                        return True
-                return False
+                        b.append(r)
+                return bool(b) and _signature(b, st) == sig
             finally:
                 shutil.rmtree(d, ignore_errors=True)
         path, small = mini.shrink(p["seed"], p["size"], still_fails,
-                                  budget_s=((60 if not shrunk else 20) if tier == "quick" else 600))
+                                  budget_s=((60 if not shrunk else 20) if tier == "quick" else 900))
         shrunk += 1
         res = _routes(aldor, small, "%s/final-%d" % (base, p["seed"]))
         bad2 = [r for r, okk in res if not okk]
         if not bad2:            # shrinking went astray (flaky run): report the original program
             small, path, bad2 = dict(p), [], bad
         small["path"] = path
-        rep.violation("generated program (seed %d size %d, shrunk to %s nodes): %s disagree(s) with the "
-                      "language definition" % (p["seed"], p["size"], small.get("nodes"), "+".join(routes)),
-                      _replay_obj(small, bad2, "./check C01 --replay <this file>"))
-    for p, bad in mismatches[3:]:
-        rep.violation("generated program (seed %d size %d, not shrunk): %s disagree(s)"
-                      % (p["seed"], p["size"], "+".join(r["route"] for r in bad)),
-                      _replay_obj(p, bad, "./check C01 --replay <this file>"))
+        rep.violation("generated program (seed %d size %d, shrunk to %s nodes; %d program(s) of this family): "
+                      "%s disagree(s) with the language definition; family %s"
+                      % (p["seed"], p["size"], small.get("nodes"), len(members), "+".join(routes), sig),
+                      dict(_replay_obj(small, bad2, "./check C01 --replay <this file>"), family=sig, members=seeds))
 
     # ---- 4. evidence
     fallback = sum(v for k, v in tries.items() if k > 5)
